@@ -681,7 +681,7 @@ func init() {
 		Plan: func(tier string, seed uint64) *fw.Plan {
 			n := int64(40000)
 			if tier == "thorough" {
-				n = 1500000
+				n = 500000 // the package registry only grows: every later Compile copies it
 			}
 			return &fw.Plan{N: n, Run: func(i int64, r *fw.Rec) {
 				rr := prng.New(seed, 0xC20, uint64(i))
